@@ -10,6 +10,8 @@ package manifest
 import (
 	"context"
 	"errors"
+	"strings"
+	"sync/atomic"
 	"time"
 
 	lifecycle "github.com/boz/go-lifecycle"
@@ -42,6 +44,8 @@ type c20env struct {
 	dep       dtypes.DeploymentID
 	manifests []amanifest.Manifest
 	hang      bool
+	hold      int32 // native: keep the manager inside its next log call
+	inLog     int32
 }
 
 func c20units() atypes.ResourceUnits {
@@ -81,6 +85,42 @@ func c20version(m amanifest.Manifest) []byte {
 	return v
 }
 
+// c20holdLog (native): keeps the manager busy inside its next log call while the replay driver
+// lets two requests arrive "at the same time" (a goroutine parked in select would be handed the
+// first of them at once); every event the manager handles starts with a log call.
+type c20holdLog struct{ e *c20env }
+
+func (l c20holdLog) wait() {
+	atomic.AddInt32(&l.e.inLog, 1)
+	for i := 0; atomic.LoadInt32(&l.e.hold) != 0 && i < 20000; i++ {
+		time.Sleep(100 * time.Microsecond)
+	}
+	atomic.AddInt32(&l.e.inLog, -1)
+}
+func (l c20holdLog) Debug(string, ...interface{})   { l.wait() }
+func (l c20holdLog) Info(string, ...interface{})    { l.wait() }
+func (l c20holdLog) Error(string, ...interface{})   { l.wait() }
+func (l c20holdLog) With(...interface{}) log.Logger { return l }
+
+// c20channels: the four request channels with the capacities the real newManager gives them
+func c20channels() (chan event.LeaseWon, chan mtypes.LeaseID, chan manifestRequest, chan []byte) {
+	svc := &service{session: c20session{&c20env{}}, bus: c20bus{&c20env{}}, lc: lifecycle.New(), managerch: make(chan *manager, 1), hostnameService: c20hostnames{}}
+	if !verif_Symbolic() {
+		svc.lc.ShutdownInitiated(nil) // the throw-away manager stops as soon as it looks
+	}
+	mm := newManager(svc, dtypes.DeploymentID{Owner: "o", DSeq: 9})
+	if verif_Symbolic() {
+		verif_DropTasks()
+	} else {
+		select {
+		case <-mm.lc.Done():
+		case <-time.After(3 * time.Second):
+		}
+		svc.lc.ShutdownCompleted()
+	}
+	return make(chan event.LeaseWon, cap(mm.leasech)), make(chan mtypes.LeaseID, cap(mm.rmleasech)), make(chan manifestRequest, cap(mm.manifestch)), make(chan []byte, cap(mm.updatech))
+}
+
 type c20session struct{ e *c20env }
 
 func (s c20session) Log() log.Logger                  { return log.NewNopLogger() }
@@ -91,7 +131,7 @@ func (s c20session) ForModule(string) session.Session { return s }
 type c20client struct{ e *c20env }
 
 func (c c20client) Query() client.QueryClient { return c20query{e: c.e} }
-func (c c20client) Tx() broadcaster.Client     { return nil }
+func (c c20client) Tx() broadcaster.Client    { return nil }
 
 type c20query struct {
 	client.QueryClient
@@ -143,10 +183,14 @@ func c20new() (*c20env, *manager, chan *manager) {
 	for k := 0; k < 3; k++ {
 		e.manifests = append(e.manifests, c20manifest(k))
 	}
+	leasech, rmleasech, manifestch, updatech := c20channels()
 	m := &manager{
 		daddr: e.dep, session: c20session{e}, bus: c20bus{e},
-		leasech: make(chan event.LeaseWon), rmleasech: make(chan mtypes.LeaseID), manifestch: make(chan manifestRequest), updatech: make(chan []byte),
+		leasech: leasech, rmleasech: rmleasech, manifestch: manifestch, updatech: updatech,
 		log: log.NewNopLogger(), lc: lifecycle.New(), hostnameService: c20hostnames{},
+	}
+	if !verif_Symbolic() {
+		m.log = c20holdLog{e}
 	}
 	return e, m, make(chan *manager, 1)
 }
@@ -225,6 +269,12 @@ func c20symbolic(steps int) {
 		e.updated = true
 		return c20version(e.manifests[1])
 	})
+	// the manifest service calls handleLease / removeLease / handleManifest / handleUpdate: with a
+	// buffered request channel such a call returns when the request is queued
+	verif_EnvCaller(m.leasech)
+	verif_EnvCaller(m.rmleasech)
+	verif_EnvCaller(m.manifestch)
+	verif_EnvCaller(m.updatech)
 	verif_EnvFinal(m.lc.ShutdownRequest(), "shutdown", 1, func() interface{} { verif_Pick("shutdown", 1); return error(nil) })
 	verif_OnQuiescent(func() { verif_Reach("idle"); c20oracle(e, false, true) })
 	verif_Steps(steps)
@@ -256,11 +306,9 @@ func c20native() {
 			}
 		}
 	}
-	for _, s := range verif_Schedule() {
-		kind, name, val := verif_Step(s)
+	// deliver one request; wait: keep trying for up to a second (the manager takes it when it looks)
+	deliver := func(kind string, val int) {
 		switch kind {
-		case "op":
-			verif_Release(name, val)
 		case "lease":
 			ev := e.lease(nl)
 			nl++
@@ -306,12 +354,62 @@ func c20native() {
 					return false
 				}
 			})
+		}
+	}
+	sched := verif_Schedule()
+	queued := func(i int) bool { return i >= 0 && i+1 < len(sched) && strings.HasPrefix(sched[i+1], "queued:") }
+	request := func(k string) bool { return k == "lease" || k == "rmlease" || k == "manifest" || k == "update" }
+	for i := 0; i < len(sched); i++ {
+		kind, name, val := verif_Step(sched[i])
+		if kind == "queued" {
+			continue
+		}
+		holding := atomic.LoadInt32(&e.hold) != 0
+		if holding && request(kind) && !queued(i) {
+			// the request that arrives together with the queued one(s): sent while the manager is
+			// still busy, so that both are there when it next looks
+			k, v := kind, val
+			go deliver(k, v)
+			time.Sleep(3 * time.Millisecond)
+			atomic.StoreInt32(&e.hold, 0)
+			verif_Settle()
+			continue
+		}
+		if holding && kind == "op" {
+			// an operation completes while the manager is still busy: its result and the queued
+			// request are both there when the manager next looks
+			verif_Release(name, val)
+			time.Sleep(5 * time.Millisecond)
+			atomic.StoreInt32(&e.hold, 0)
+			verif_Settle()
+			continue
+		}
+		if holding && !request(kind) {
+			atomic.StoreInt32(&e.hold, 0)
+			holding = false
+		}
+		if !holding && request(kind) && !queued(i) && queued(i+1) {
+			// the next request will be QUEUED while the manager is busy handling this one
+			atomic.StoreInt32(&e.hold, 1)
+		}
+		switch kind {
+		case "op":
+			verif_Release(name, val)
 		case "shutdown":
 			sawShutdown = true
 			go m.lc.ShutdownAsync(nil)
+		default:
+			deliver(kind, val)
+		}
+		if atomic.LoadInt32(&e.hold) != 0 {
+			for w := 0; atomic.LoadInt32(&e.inLog) == 0 && w < 300; w++ {
+				time.Sleep(100 * time.Microsecond)
+			}
+			continue
 		}
 		verif_Settle()
 	}
+	atomic.StoreInt32(&e.hold, 0)
 	verif_ReleaseAll()
 	returned := false
 	select {
@@ -340,7 +438,15 @@ func c20native() {
 func c20(steps int) {
 	if verif_Symbolic() {
 		c20symbolic(steps)
-	} else {
+		return
+	}
+	// with buffered request channels the manager's select may pick either of two things that are
+	// ready at once: the native run is repeated so that the schedule the engine found shows up
+	reps := 1
+	if a, b, c, d := c20channels(); cap(a)+cap(b)+cap(c)+cap(d) > 0 {
+		reps = 16
+	}
+	for i := 0; i < reps; i++ {
 		c20native()
 	}
 }
